@@ -151,7 +151,7 @@ fn first_missed_break(sentence: &str, abs: usize, text: &str, occ: &[(usize, usi
 fn gen_lexicon(rng: &mut Rng, nid: i64) -> (Lexicon, Vec<String>) {
     let pool = dictgen::pos_pool();
     let mut lex = Lexicon::default();
-    let base = ["あい", "うえ", "東京", "都", "です", "と", "A", "1", "モーニング娘。", "な。な", "Yahoo!", "。", "！", "?", "。」", "い。", "」x", "…と", "a.b", "<br>", "・・"];
+    let base = ["あい", "うえ", "東京", "都", "です", "と", "A", "1", "モーニング娘。", "な。な", "Yahoo!", "。", "！", "?", "。」", "い。", "」x", "…と", "a.b", "<br>", "・・", "OK!", "a?", "x.", "ﾅ!", "1。"];
     for (i, w) in base.iter().enumerate() {
         if i < 3 || rng.chance(1, 2) {
             lex.entries.push(Entry::simple(w, rng.range(0, nid - 1) as i16, rng.range(0, nid - 1) as i16, rng.range(0, 5000) as i16, &pool[i % pool.len()]));
